@@ -2067,4 +2067,151 @@ theorem count_partition (k : Nat) : ∀ l : List PMsg,
       omega
 
 
+
+/-! ### length of the header template's range part (round 7) -/
+
+/-- bytes the header template's range spends on one message (system messages print nothing there) -/
+def hCost (prev : Option Role) (m : RMsg) : Nat :=
+  if m.1 = Role.system then 0
+  else if prev = some m.1 then 2 + m.2.length else (roleName m.1).length + 3 + m.2.length
+
+def hLen : Option Role → List RMsg → Nat
+  | _, [] => 0
+  | prev, m :: l => hCost prev m + hLen (some m.1) l
+
+theorem hCost_tri (prev : Option Role) (x y : RMsg) (hx : x.1 ≠ Role.system) :
+    hCost prev y ≤ hCost prev x + hCost (some x.1) y := by
+  have hy := roleName_pos y.1
+  unfold hCost
+  by_cases hys : y.1 = Role.system
+  · simp [hys]
+  · simp only [hys, hx, if_false]
+    by_cases hxy : x.1 = y.1
+    · rw [hxy]
+      by_cases h3 : prev = some y.1 <;> simp only [h3, if_true, if_false] <;> omega
+    · have h2 : ¬ (some x.1 = some y.1) := fun h => hxy (Option.some.inj h)
+      simp only [h2, if_false]
+      by_cases h3 : prev = some y.1 <;> simp only [h3, if_true, if_false] <;> omega
+
+theorem hLen_drop_head (prev : Option Role) (x : RMsg) (b : List RMsg) (hx : x.1 ≠ Role.system) :
+    hLen prev b ≤ hLen prev (x :: b) := by
+  cases b with
+  | nil => simp [hLen]
+  | cons y b' =>
+    simp only [hLen]
+    have := hCost_tri prev x y hx
+    omega
+
+/-- removing a non-system message does not make the range part longer -/
+theorem hLen_remove (x : RMsg) (hx : x.1 ≠ Role.system) : ∀ (a b : List RMsg) (prev : Option Role),
+    hLen prev (a ++ b) ≤ hLen prev (a ++ x :: b) := by
+  intro a
+  induction a with
+  | nil => intro b prev; exact hLen_drop_head prev x b hx
+  | cons y a ih =>
+    intro b prev
+    simp only [List.cons_append, hLen]
+    have := ih b (some y.1)
+    omega
+
+def hBody (x : RMsg) : Bytes :=
+  if x.1 = Role.system then [] else [91] ++ (roleName x.1 ++ ([124] ++ (x.2 ++ ([93] ++ []))))
+
+theorem hBody_length (x : RMsg) :
+    (hBody x).length = if x.1 = Role.system then 0 else (roleName x.1).length + 3 + x.2.length := by
+  unfold hBody
+  split
+  · rfl
+  · simp; omega
+
+def hgl (l : List RMsg) : Nat := ((collateMsgs l).flatMap hBody).length
+
+theorem hgl_cons (r : Role) (c : Bytes) (rest : List RMsg) :
+    hgl ((r, c) :: rest) =
+      if r = Role.system then hgl rest
+      else if headRole rest = some r then hgl rest + c.length + 2
+      else (roleName r).length + 3 + c.length + hgl rest := by
+  have hh := collate_head rest
+  unfold hgl
+  simp only [collateMsgs]
+  cases hc : collateMsgs rest with
+  | nil =>
+    rw [hc] at hh
+    have : ¬ (headRole rest = some r) := by rw [← hh]; simp [headRole]
+    by_cases hs : r = Role.system
+    · simp [hs, hBody_length]
+    · simp [this, hs, hBody_length]
+      try omega
+  | cons b tl =>
+    obtain ⟨r', c'⟩ := b
+    rw [hc] at hh
+    have hr' : headRole rest = some r' := by rw [← hh]; rfl
+    by_cases hr : r = r'
+    · subst hr
+      by_cases hs : r = Role.system
+      · simp [hs, hBody_length]
+      · simp [hr', hs, hBody_length, sep2]
+        try omega
+    · have : ¬ (some r' = some r) := fun h => hr (Option.some.inj h).symm
+      by_cases hs : r = Role.system
+      · subst hs
+        have hr2 : ¬ (Role.system = r') := hr
+        simp [hr2, hBody_length]
+      · simp [hr', hr, this, hs, hBody_length]
+        try omega
+
+theorem hLen_hgl : ∀ (l : List RMsg) (prev : Option Role),
+    hLen prev l + (match headRole l with
+      | some r => if r ≠ Role.system ∧ prev = some r then (roleName r).length + 1 else 0
+      | none => 0) = hgl l := by
+  intro l
+  induction l with
+  | nil => intro prev; simp [hLen, hgl, headRole, collateMsgs]
+  | cons a rest ih =>
+    intro prev
+    obtain ⟨r, c⟩ := a
+    have ihr := ih (some r)
+    rw [hgl_cons]
+    have hhd : headRole ((r, c) :: rest) = some r := rfl
+    rw [hhd]
+    simp only [hLen, hCost]
+    have hrn := roleName_pos r
+    by_cases hs : r = Role.system
+    · subst hs
+      simp only [if_true, ne_eq, not_true_eq_false, false_and, if_false] at ihr ⊢
+      cases hh : headRole rest with
+      | none => rw [hh] at ihr; simp only at ihr; omega
+      | some r' =>
+        rw [hh] at ihr
+        simp only at ihr
+        by_cases h2 : r' ≠ Role.system ∧ some Role.system = some r'
+        · exfalso; exact h2.1 (Option.some.inj h2.2).symm
+        · simp only [h2, if_false] at ihr; omega
+    · simp only [hs, if_false, ne_eq, not_false_eq_true, true_and]
+      cases hh : headRole rest with
+      | none =>
+        rw [hh] at ihr
+        simp only [reduceCtorEq, if_false] at ihr ⊢
+        by_cases hp : prev = some r <;> simp only [hp, if_true, if_false] <;> omega
+      | some r' =>
+        rw [hh] at ihr
+        simp only at ihr
+        by_cases hr : r' = r
+        · subst hr
+          simp only [hs, ne_eq, not_false_eq_true, true_and, if_true] at ihr ⊢
+          by_cases hp : prev = some r' <;> simp only [hp, if_true, if_false] <;> omega
+        · have h1 : ¬ (some r = some r') := fun h => hr (Option.some.inj h).symm
+          have h2 : ¬ (some r' = some r) := fun h => hr (Option.some.inj h)
+          simp only [h1, h2, and_false, if_false] at ihr ⊢
+          by_cases hp : prev = some r <;> simp only [hp, if_true, if_false] <;> omega
+
+theorem hgl_eq_hLen (l : List RMsg) : hgl l = hLen none l := by
+  have := hLen_hgl l none
+  cases h : headRole l <;> simp [h] at this <;> omega
+
+/-- **removing a non-system message never makes the range part of the header prompt longer** -/
+theorem hgl_remove (x : RMsg) (hx : x.1 ≠ Role.system) (a b : List RMsg) : hgl (a ++ b) ≤ hgl (a ++ x :: b) := by
+  rw [hgl_eq_hLen, hgl_eq_hLen]; exact hLen_remove x hx a b none
+
+
 end OllamaVerif.Prompt
